@@ -376,6 +376,12 @@ def rule_c19_indexes(ctx, prog, rule="R27"):
            "x(q = 0) is not 0", what="q = 0 does not select the minimum")
     ctx.ob(rule, "indexes/q1-is-last", ok1, lob.where(), "x(q = 1) = len − 1: both neighbours are the last position, the lane maximum (C02)" if ok1 else
            "x(q = 1) is not len − 1", what="q = 1 does not select the maximum")
+    inb = m in ("inc", "const") and ok0 and ok1
+    ctx.ob(rule, "indexes/in-bounds-for-valid-q", inb, lob.where(),
+           "x is non-decreasing in q with x(0) = 0 and x(1) = len − 1, so 0 ≤ x ≤ len − 1 for every accepted q ∈ [0,1] and floor(x), ceil(x) "
+           "are positions of the lane: the in-bounds half of the bulk selection's precondition holds at the quantile call sites "
+           "(q ∈ [0,1] is the guard checked by C17/R6)" if inb else "0 ≤ x ≤ len − 1 for q ∈ [0,1] is not established",
+           what="a requested position can lie outside the lane")
 
 
 def rule_c19_fraction_monotone(ctx, prog, rule="R27"):
